@@ -13,7 +13,7 @@ CHECKS = {
             'configs on the ASan+UBSan binary; validity predicate on status, signal, sanitizer report, CPU time, stdout, stderr',
             'Line-boundary truncations of corpus files (thorough: every boundary of every file), line / token / byte mutations with tails '
             'that end the file inside every kind of construct, random byte strings and generated C / C++ programs cut at a random byte are '
-            'run - also under a foreign language, with default, profile and random in-range configs, with and without -q - on a binary '
+            'run - also under a foreign language, with default, profile and random in-range configs, with and without -q -, plus nesting 17 / 33 / 70 levels deep under all alignment options and marker regexes the library refuses, on a binary '
             'built with AddressSanitizer and UBSan: the exit status must be 0, 1 or a documented EX_* value, there must be no signal, no '
             'sanitizer report, no uncaught exception and no CPU-limit hit, and a non-zero status must come with empty stdout and (without '
             '-q) a diagnostic.',
@@ -35,7 +35,7 @@ CHECKS = {
             'per line; for indent_columns 1..16, indent_with_tabs 0..2, output_tab_size 1..16 and brace-placement options every line that '
             'starts with a statement\'s first token must sit in the closed-form visual column, closing braces under their opener, and a second '
             'rendering that differs only in indentation must give identical leading whitespace on those lines; with indent_brace > 0 '
-            'statements of equal depth in one function must share a column.',
+            'statements of equal depth in one function must share a column; the indent_braces family (braces at body level, exemptions for functions and classes, indent_class) and goto labels under indent_label have closed forms of their own.',
             'Preprocessor groups, dangling-else shapes, bare blocks as bodies and class / namespace bodies are kept out so that the '
             'depth annotation is exact; continuation lines, comments and parenthesised text are not judged.', 'DESIGN.md §3 C18'),
     'C19': ('exploration', 'exhaustive sweep sp_ option x 4 values over a corpus slice + random joint assignments over the corpus and generated '
@@ -121,13 +121,13 @@ CHECKS = {
             'the domain; program shapes for non-C languages come from the corpus only.', 'DESIGN.md §3 C04'),
     'C15': ('exploration', 'exhaustive option x value enumeration + seeded random configs; round-trip / idempotence / differential oracle',
             'Every option is set singly to every enumerated, boundary and special string value (all ~3300 settings visited in both '
-            'tiers), every directive form, seeded spellings, references and random whole configs; each dump is parsed by an '
+            'tiers), every directive form, seeded spellings (every string option x every string value class also through --set; names in lower / upper / mixed case), references and random whole configs; each dump is parsed by an '
             'independent reader, reloaded, re-dumped and compared bytewise, and probes are formatted under c and D(c).',
             'Trusts the option list/ranges reported by the binary (--universalindent) as the domain; multi-option interactions '
             'are sampled, not exhausted.', 'DESIGN.md §3 C15'),
     'C16': ('exploration', 'exhaustive option x defect-class enumeration + random/mutated config text on the ASan+UBSan binary; '
             'differential oracle (dump with vs without the bad line) + diagnostic predicate',
-            'Every non-string option receives every class of bad value (below/above range, overflow, wrong type, foreign enum '
+            'Every non-string option receives every class of bad value (below/above range, overflow, wrong type, empty value, lone prefix, foreign enum '
             'word, incompatible and dangling reference) inside a seeded good config; the dump must equal the dump without the '
             'line and stderr must name file:line and the option; malformed syntax forms, include cycles, `using` forms, nl_max '
             'conflicts for every blank-line count option and thousands of random/mutated config texts must not crash or hang.',
@@ -146,11 +146,11 @@ CHECKS = {
             'For corpus files, their formatted versions and same-size / last-byte / final-newline perturbations, in four input '
             'encodings, --check exit status and PASS/FAIL lines must agree with an independent reference run f(z)==z and leave the '
             'directory snapshot (names, sizes, mtime_ns, sha256) untouched; --if-changed must write its target iff f(z)!=z and then '
-            'exactly f(z), for -o, stdout, suffix, prefix, --replace, --no-backup and -o onto the source.',
+            'exactly f(z), for -o, stdout, suffix, prefix, --replace, --no-backup, -o onto the source and with the source on stdin.',
             'The reference f(z) comes from the same binary in a plain -f run, so a defect that changes both paths identically is '
             'invisible here (C10 covers mode equivalence).', 'DESIGN.md §3 C12'),
     'C10': ('exploration', 'seeded inputs x delivery modes x observer subsets x environments; differential oracle against a reference mode',
-            'Each seeded (file, config) pair is pushed through 14 delivery/output modes with random observer subsets, every observer '
+            'Each seeded (file, config) pair - a quarter with an include block that holds the file\'s own header and the name-dependent sort options - is pushed through 17 delivery/output modes (incl. the file named with ./, an absolute path, a directory part, and the long option spellings) with random observer subsets, every observer '
             'alone and all together, 10 environment variations (locale, TZ, HOME, ASLR off, repeats, large environment) and another '
             'working directory; all byte strings must equal the reference mode and the created files must be the documented set; '
             'thorough adds a valgrind sample for uninitialised reads.',
@@ -158,7 +158,7 @@ CHECKS = {
             'valgrind, never proven.', 'DESIGN.md §3 C10'),
     'C13': ('fault_enumeration', 'exhaustive syscall-level fault enumeration (strace kill / errno injection at every file-related call of '
             'every scenario) with a file-system invariant oracle',
-            'Per scenario (mode x input x pre-existing state) a strace census lists every file-related system call after start-up; '
+            'Per scenario (mode - incl. -o naming the source by another spelling - x input - incl. a zero-length source that gets content - x pre-existing state) a strace census lists every file-related system call after start-up; '
             'each one is a SIGKILL point and, for calls on the source / temporary / backup / md5 files, an error point for the errnos '
             'of its kind; after every run the path must hold the original or the complete formatted bytes, the backup must hold the '
             'original whenever the path changed, and errors that prevent the rewrite must give a non-zero status. Exhaustive over '
@@ -167,15 +167,15 @@ CHECKS = {
             'are outside the domain. "Original" is read compatibly with C14: the text the run started from.', 'DESIGN.md §3 C13'),
     'C14': ('exploration', 'bounded-exhaustive history enumeration + Hypothesis-generated long histories (shrinking) against a reference '
             'model of the backup/md5 protocol and the invariant',
-            'All histories up to length 5 (quick) / 6 (thorough) over user writes and --replace / -o-same runs with two configs are '
+            'All histories up to length 5 (quick) / 6 (thorough) over user writes (two texts, a formatted text, the same bytes, the empty file) and --replace / -o-same runs with two configs are '
             'executed against the binary; file, backup and md5 file are compared with a reference model and with the directly stated '
-            'invariant after every run; Hypothesis adds histories up to length 24 with runs killed at seven protocol points and '
+            'invariant after every run; Hypothesis adds histories up to length 24 with runs killed at seven protocol points - a killed run counts as a run, the invariant must hold again after the next completed run - and '
             'shrinks a failure to a minimal history.',
             'Two fixed user texts and two fixed configs; equality of a user write with the text uncrustify last left is treated as '
             '"not an edit" (indistinguishable by the md5 protocol).', 'DESIGN.md §3 C14'),
     'C11': ('exploration', 'all ordered pairs of a poisoner/victim pool inside batch invocations + seeded random sequences; differential '
             'oracle batch output == separate invocation; greedy sequence shrinking',
-            'A pool of ~57 synthetic state-poisoning files and seeded corpus files of every language: for four configurations and three '
+            'A pool of ~62 synthetic state-poisoning files and seeded corpus files of every language: for four configurations and three '
             'language modes (extension, -l C, -l CPP) every ordered pair is made adjacent in a positional / -F batch, plus random '
             'configurations with random sequences of 20..120 files; every file\'s batch output must equal its separate-invocation '
             'output and the batch must exit 0; a mismatch is shrunk to the shortest predecessor chain.',
